@@ -254,6 +254,11 @@ def run(ck):
 
     check_g(ck, repo, rule="C15.a", only={"SkBaseTransformLearner"})
     copies_only(ck, repo, rule="C15.c")
+    from .sem import share_clauses
+
+    share_clauses(ck, "c03", {
+        "C03.d": ("C15.d", "fit of a wrapper assigns the object it answers with before reading it: no copy taken by an earlier fit is reused"),
+    }, keep=lambda o: o.file.endswith(("transfer_transformer.py", "sklearn_base_transform_learner.py", "sklearn_base_transform_stacking.py", "sklearn_base_learner.py")))
     ck.require_count("C15.a", 6, "transform shape, 4 table entries, callable, fit forwarding, returns self, constructor binding")
     ck.require_count("C15.b", 3, "transform, fit loop, returns self, conversion x3")
     ck.require_count("C15.c", 12, "4 fit calls x (guard, receiver), forms, provenance x3, no writes, returns self, transform, default chain")
